@@ -169,7 +169,7 @@ def check(run):
     # malformed encodings
     good = seeds[3]
     bad_bytes = [good[:31], good + b"\x00", b"", good.hex(), None, 5, [good], bytearray(good)[:31]]
-    bad_hex = [good.hex()[:63], good.hex() + "0", good.hex().upper(), " " + good.hex()[1:], good, None, 5, "0x" + good.hex()[2:], good.hex() + "\n", ""]
+    bad_hex = [good.hex().encode(), bytearray(good.hex().encode()), good.hex()[:63], good.hex() + "0", good.hex().upper(), " " + good.hex()[1:], good, None, 5, "0x" + good.hex()[2:], good.hex() + "\n", ""]
     for cls in (c.PrivateKey, c.PublicKey):
         for b in bad_bytes:
             try:
